@@ -155,7 +155,7 @@ partial def dvOfJson (j : Json) : Except String (DV Float) := do
 /-- what is reported about a (re)loaded composition: advertised paths in parameter order, identity
 ranks, count, and its own dictionary with every id replaced by its rank -/
 def reportPN (r : PN Float) : Json :=
-  let e := erase (fun _ => []) r
+  let e := pnErase (fun _ => []) r
   let pp := pathPriors e
   let ids := uniqueIds e
   let rank (i : Nat) : Nat := (indexOf? ids i).getD 0
@@ -215,7 +215,7 @@ def handleC08Dict (q : String) (j : Json) : Except String Json := do
   | "pickle" =>
       let t ← pnOfJson (← j.getObjVal? "pn")
       let r := pickleRT t
-      let e := erase (fun _ => []) r
+      let e := pnErase (fun _ => []) r
       pure (Json.mkObj [
         ("paths", Json.arr (((pathPriors e).map (·.1)).map jsonOfPath).toArray),
         ("ids", Json.arr ((pathPriors e).map (fun x => Json.num ((x.2 : Nat) : Lean.JsonNumber))).toArray),
